@@ -733,6 +733,40 @@ pub fn check_formula(text: &str, via_cli: bool) -> Check {
     })
 }
 
+/// The parse-tree export alone (no evaluation): for texts whose evaluation would be expensive.
+pub fn check_tree_only(text: &str) -> Check {
+    let cj = json!({"kind": "tree-only", "text": text});
+    let v = |m: String| Violation::new(m, cj.clone());
+    let parsed = rparse::parse_text(text.as_bytes()).map_err(|e| v(format!("HARNESS: reference parser: {}", e)))?;
+    guarded(&cj.clone(), || {
+        let pf = match crate::util::catch(|| front::parse(text.as_bytes(), None)) {
+            Ok(Ok(pf)) => pf,
+            Ok(Err(e)) => return Err(front::rejection(text, "well-formed formula", &e, &cj)),
+            Err(p) => return Err(v(format!("parser panicked: {}", p))),
+        };
+        let mut buf = Vec::new();
+        SymbolicParseTree::new(&pf.bdd)
+            .render_dot(&mut buf)
+            .map_err(|e| v(format!("parse-tree render_dot failed: {}", e)))?;
+        let tree_text = String::from_utf8(buf).map_err(|_| v("parse-tree DOT is not UTF-8".into()))?;
+        check_tree_dot(&tree_text, &parsed.ast).map_err(|e| v(format!("parse tree: {}", e)))
+    })
+}
+
+/// texts with very long lists / chains (list positions beyond 255, 256, 65535 are labels too)
+pub fn long_tree_text(n: usize, shape: usize) -> String {
+    let x: Vec<String> = (0..n).map(|i| format!("x{}", i)).collect();
+    let y: Vec<String> = (0..n + 3).map(|i| if i % 5 == 0 { format!("-y{}", i) } else { format!("y{}", i) }).collect();
+    match shape % 6 {
+        0 => format!("[{}] >= 1", x.join(", ")),
+        1 => format!("[{}] <= [{}]", x.join(", "), y.join(", ")),
+        2 => format!("[a, b] = [{}]", y.join(", ")),
+        3 => format!("exists {} # x0 & x{}", x.join(", "), n - 1),
+        4 => format!("forall {} # [{}] > {}", x[..n / 2].join(", "), x.join(", "), n),
+        _ => format!("[{}, {}] < {}", x.join(", "), x.join(", "), n),
+    }
+}
+
 pub fn run(ctx: &mut Ctx) -> Result<(), Violation> {
     ctx.rule = "cases = diagrams and syntax trees. Diagrams: every function of <= 3 (thorough 4) variables under two id maps, random functions of <= 8 variables, NamedSymbol diagrams of generated formulas (names a', e-acute, x_1) and String-symbol diagrams whose names need escaping (backslash, quote, tab, newline, braces, brackets, `\"];`), each exported with filters Any/True/False and read back with a minimal DOT reader. \
                 Oracle: each id declared once, every edge endpoint declared, no duplicate edge, Any: every test node has exactly one T and one F edge, one root, #test nodes == #structurally distinct sub-diagrams, evaluating the read-back graph under every assignment (by label) gives the source table; True/False: exactly the Any export minus the opposite leaf and minus the edges into it. \
@@ -853,6 +887,31 @@ pub fn run(ctx: &mut Ctx) -> Result<(), Violation> {
         check_formula(&text, via_cli)
     });
     ctx.stage("formulas-parse-tree-and-named-diagram", false, r)?;
+
+    let sizes: Vec<usize> = ctx.tier.pick(vec![40, 129, 255, 256, 257, 300], vec![40, 127, 128, 129, 254, 255, 256, 257, 258, 300, 513, 1100, 65537]);
+    let mut jobs: Vec<(usize, usize)> = Vec::new();
+    for n in &sizes {
+        for shape in 0..6 {
+            if *n > 5000 && shape != 0 && shape != 3 {
+                continue;
+            }
+            jobs.push((*n, shape));
+        }
+    }
+    let r = par_jobs(ctx, &jobs, |(n, shape), st| {
+        let text = long_tree_text(*n, *shape);
+        st.eval();
+        st.class(match *n {
+            0..=255 => "list<=255",
+            256..=300 => "list 256..300",
+            _ => "list>300",
+        });
+        if *n > 16 && st.nontrivial(fnv_str(&text)) {
+            st.nt_sample(|| json!({"kind": "tree-only", "entries": n, "shape": shape}));
+        }
+        check_tree_only(&text)
+    });
+    ctx.stage("parse-trees-with-long-lists", true, r)?;
     Ok(())
 }
 
@@ -873,6 +932,10 @@ pub fn replay(case: &Value) -> Check {
                 _ => Err(Violation::new("unreadable replay case", case.clone())),
             }
         }
+        Some("tree-only") => match case["text"].as_str() {
+            Some(t) => check_tree_only(t),
+            None => Err(Violation::new("unreadable replay case", case.clone())),
+        },
         Some("formula") => match case["text"].as_str() {
             Some(t) => check_formula(t, case["cli"].as_bool().unwrap_or(false)),
             None => Err(Violation::new("unreadable replay case", case.clone())),
